@@ -59,10 +59,11 @@ CLAIMED.update({
               "partial: the label-order clause of interval union is evaluated (and follows from C11's merge clause per step), not proved as one statement."),
     "C11": _c("Proof: Props/C11.v shows that the model of IntervalTier.insertEntry (lax crop, delete matches, append, sort, span "
               "update) equals the collision-policy specification for every wf tier, entry and mode, that order, disjointness and the "
-              "just-enough span are re-established, and the delete clauses.  Single steps (exhaustive small scope) and histories of "
+              "just-enough span are re-established, the delete clauses, and the same policy for PointTier.insertEntry (no point at "
+              "that time: added, nothing else changes; error / replace / merge old-new on a point at the same time; order and "
+              "just-enough span afterwards).  Single steps (exhaustive small scope) and histories of "
               "up to 12 inserts/deletes are compared state by state with model and specification inside Coq.",
-              "Coq proof (sorted-permutation uniqueness, membership/disjointness) + in-Coq differential correspondence on histories", "5/C11",
-              "PointTier.insertEntry is modelled and compared, its specification is stated but not separately proved."),
+              "Coq proof (sorted-permutation uniqueness, membership/disjointness) + in-Coq differential correspondence on histories", "5/C11"),
 })
 
 CLAIMED.update({
